@@ -67,8 +67,52 @@ def transform(mod_file, rel_dir, depth, files):
     return "\n".join(out)
 
 
+# Function twins: the text of ONE function item is copied verbatim from /repo's current source, with only the name at
+# its definition changed, into <crate>/src/twins/<module>__<fn>.rs.  A harness fragment (a child module of the real
+# module, so private items resolve exactly as in the original) include!s the twin.  Calls inside the twin's body still
+# name the ORIGINAL function, which the harness replaces by a recorder with #[kani::stub]: this cuts a recursion at its
+# first level - the code executed at the top is the real body, the nested calls are recorded (DESIGN.md 2.6).
+TWINS = [("react/syscommand_runner.rs", "syscommand_runner", "syscommand_runner_top")]
+
+
+def extract_fn(text, name):
+    m = re.search(r'^(pub(\([a-z]+\))?\s+)?fn\s+' + re.escape(name) + r'\s*\(', text, re.M)
+    if not m:
+        raise SystemExit(f"gen_tree: function {name} not found (renamed or moved?)")
+    i = text.index("{", m.end())
+    depth, j = 0, i
+    while True:
+        c = text[j]
+        if c == "{":
+            depth += 1
+        elif c == "}":
+            depth -= 1
+            if depth == 0:
+                break
+        j += 1
+    return text[m.start():j + 1], m
+
+
+def write_twins(crate_src):
+    d = os.path.join(crate_src, "twins")
+    os.makedirs(d, exist_ok=True)
+    for rel, name, new in TWINS:
+        with open(os.path.join(REPO, "src", rel)) as f:
+            text = f.read()
+        body, m = extract_fn(text, name)
+        head = body[:m.end() - m.start()]
+        twin = re.sub(r'fn\s+' + re.escape(name), "fn " + new, head, count=1) + body[len(head):]
+        out = os.path.join(d, rel.replace("/", "__")[:-3] + "__" + name + ".rs")
+        banner = f"// GENERATED from /repo/src/{rel}: the item `{name}` verbatim, renamed `{new}` at its definition only.\n"
+        old = open(out).read() if os.path.exists(out) else None
+        if old != banner + twin + "\n":
+            with open(out, "w") as f:
+                f.write(banner + twin + "\n")
+
+
 def main():
     out_path = sys.argv[1]
+    write_twins(os.path.dirname(out_path))
     files = []
     body = transform(os.path.join(REPO, "src", "lib.rs"), "", 0, files)
     header = (
